@@ -12,6 +12,19 @@ structure WF (t : TinyLfu) : Prop where
   sk : t.sketch.WF
   dk : t.door.WF
 
+/-- the executable check is sound for the well-formedness the theorems assume -/
+theorem wfb_sound (t : TinyLfu) (h : t.wfb = true) : t.WF := by
+  unfold TinyLfu.wfb Sketch.wfb Bloom.wfb at h
+  simp only [Bool.and_eq_true, List.all_eq_true, decide_eq_true_eq, Bool.not_eq_true', List.isEmpty_eq_false_iff] at h
+  obtain ⟨⟨⟨h1, h2⟩, h3⟩, ⟨⟨⟨d1, d2⟩, d3⟩, d4⟩⟩ := h
+  refine ⟨⟨?_, ?_, h3⟩, ⟨d1, d2, d3, d4⟩⟩
+  · intro r hr
+    have := h1 r hr
+    exact ⟨fun b hb => this.1 b hb, this.2⟩
+  · cases hs : t.sketch.scheme with
+    | std seeds => rw [hs] at h2; simpa using h2
+    | core => trivial
+
 /-- the doorkeeper holds the hash: all its probe bits are set -/
 def Has (t : TinyLfu) (h : UInt64) : Prop := ∀ j, Bloom.Probes t.door h j → t.door.bit j = true
 
